@@ -197,7 +197,7 @@ def run_reactor(case, want_smarts=False, prune=True):
     import synkit.Synthesis.Reactor.syn_reactor as SR
     quiet()
     cfg = dict(MODES[case.get("mode", "E")])
-    tpl = tpl_graph(case["tpl"])
+    tpl = case["_shared_tpl"] if "_shared_tpl" in case else tpl_graph(case["tpl"])
     rec = Rec()
     rec.tpl = copy.deepcopy(tpl)
     rec.glue_calls = []       # [mapping, [explicit remaps] | None, host_explicit | None, [its before _explicit_h]]
@@ -275,13 +275,19 @@ def run_reactor(case, want_smarts=False, prune=True):
         reads = int(case.get("reads", 0))
         if reads > 1 and rec.its_err is None:
             # lazily cached attributes and everything derived from them, read again and again
-            first = dict(mappings=[dict(m) for m in R.mappings], its=[_gsig(g) for g in R.its_list], smarts=list(R.smarts_list),
-                         smiles=list(R.smiles_list), count=R.mapping_count, sub=R.substrate_smiles)
-            for _ in range(reads - 1):
-                again = dict(mappings=[dict(m) for m in R.mappings], its=[_gsig(g) for g in R.its], smarts=list(R.smarts),
-                             smiles=list(R.smiles_list), count=R.mapping_count, sub=R.substrate_smiles)
-                if again != first:
-                    rec.reads_ok = False
+            def snap():
+                return dict(mappings=[dict(m) for m in R.mappings], its=[_gsig(g) for g in R.its_list], smarts=list(R.smarts_list))
+            first = snap()
+            seen = [first]
+            for i in range(reads - 1):
+                # reads in varying order and number, so that a value that flips on every access cannot alias
+                if i % 2 == 0:
+                    _ = R.smiles_list
+                _ = (R.mapping_count, R.substrate_smiles, R.smarts, R.its)
+                seen.append(snap())
+                seen.append(dict(mappings=[dict(m) for m in R._mappings_prop], its=[_gsig(g) for g in R.its], smarts=list(R.smarts)))
+            if any(x != first for x in seen):
+                rec.reads_ok = False
             rec.its_list = list(R.its_list)
             if want_smarts:
                 rec.smarts = list(R.smarts_list)           # the oracle judges the LAST read
